@@ -23,6 +23,65 @@ type Engine struct {
 	spec   *Spec
 	fns    map[string]*ssa.Function // pkg::key
 	srcTxt map[string][]string
+	interior map[string]bool // module struct types that occur by value inside other structs, arrays or slices
+}
+
+// computeInterior finds the struct types of the module that are embedded by value somewhere (as a field, an
+// array or slice element, a map value): a pointer to any other module struct is always the base of its object.
+func (e *Engine) computeInterior() {
+	e.interior = map[string]bool{}
+	var mark func(t types.Type)
+	mark = func(t types.Type) {
+		switch u := t.(type) {
+		case *types.Named:
+			if _, ok := u.Underlying().(*types.Struct); ok {
+				e.interior[types.TypeString(u, nil)] = true
+			}
+		case *types.Array:
+			mark(u.Elem())
+		}
+	}
+	for _, p := range e.tpkgs {
+		if !strings.HasPrefix(p.Path(), modPrefix) {
+			continue
+		}
+		for _, name := range p.Scope().Names() {
+			tn, ok := p.Scope().Lookup(name).(*types.TypeName)
+			if !ok {
+				continue
+			}
+			switch u := tn.Type().Underlying().(type) {
+			case *types.Struct:
+				for i := 0; i < u.NumFields(); i++ {
+					mark(u.Field(i).Type())
+				}
+			case *types.Slice:
+				mark(u.Elem())
+			case *types.Map:
+				mark(u.Elem())
+			}
+		}
+	}
+	// element types of slices / maps used anywhere in signatures or bodies are found lazily: any []T / map[..]T with T a
+	// module struct marks T (conservative scan over all SSA value types)
+	for _, f := range e.fns {
+		for _, b := range f.Blocks {
+			for _, in := range b.Instrs {
+				if val, ok := in.(ssa.Value); ok {
+					switch u := val.Type().Underlying().(type) {
+					case *types.Slice:
+						mark(u.Elem())
+					case *types.Map:
+						mark(u.Elem())
+					case *types.Pointer:
+						if a, ok := u.Elem().Underlying().(*types.Array); ok {
+							mark(a.Elem())
+						}
+					}
+				}
+			}
+		}
+	}
 }
 
 func (e *Engine) typesPkg(path string) *types.Package {
@@ -59,6 +118,7 @@ func load(dir string) (*Engine, error) {
 		}
 		e.fns[f.Pkg.Pkg.Path()+"::"+f.RelString(f.Pkg.Pkg)] = f
 	}
+	e.computeInterior()
 	return e, nil
 }
 
